@@ -11,6 +11,7 @@ import (
 	"flag"
 	"fmt"
 	"go/ast"
+	"go/build"
 	"go/format"
 	"go/parser"
 	"go/token"
@@ -77,10 +78,22 @@ type site struct {
 	What string `json:"what"`
 }
 
+// parsed is one non-test library file.
+type parsed struct {
+	path, rel string
+	f         *ast.File
+	changed   bool
+	keep      []string // import names that must stay referenced
+}
+
 func run(repo, out string) error {
 	overlay := map[string]string{}
 	var sites []site
 	fset := token.NewFileSet()
+	byDir := map[string][]*parsed{}
+	var dirs []string
+	bctx := build.Default
+	bctx.BuildTags = []string{"verif"}
 	err := filepath.Walk(repo, func(p string, fi os.FileInfo, err error) error {
 		if err != nil {
 			return err
@@ -95,120 +108,139 @@ func run(repo, out string) error {
 		if !strings.HasSuffix(base, ".go") || strings.HasSuffix(base, "_test.go") {
 			return nil
 		}
+		if ok, err := bctx.MatchFile(filepath.Dir(p), base); err != nil || !ok {
+			return nil
+		}
 		src, err := os.ReadFile(p)
 		if err != nil {
 			return err
-		}
-		if !bytes.Contains(src, []byte("time.")) {
-			return nil
 		}
 		f, err := parser.ParseFile(fset, p, src, parser.ParseComments)
 		if err != nil {
 			return nil // the build will report it
 		}
-		timeName := ""
-		for _, is := range f.Imports {
-			if is.Path.Value == `"time"` {
-				timeName = "time"
-				if is.Name != nil {
-					timeName = is.Name.Name
-				}
-			}
-		}
-		if timeName == "" || timeName == "_" || timeName == "." {
-			return nil
-		}
-		n := 0
 		rel, _ := filepath.Rel(repo, p)
-		ast.Inspect(f, func(x ast.Node) bool {
-			switch e := x.(type) {
-			case *ast.CallExpr:
-				// time.Local as a value inside call arguments etc. is handled by the SelectorExpr case through parents
-				_ = e
-			}
-			return true
-		})
-		// rewrite selectors; time.Local (a variable) becomes the call vclock.Local()
-		var rewrite func(n ast.Node) ast.Node
-		replaced := map[*ast.SelectorExpr]bool{}
-		ast.Inspect(f, func(x ast.Node) bool {
-			se, ok := x.(*ast.SelectorExpr)
-			if !ok {
-				return true
-			}
-			id, ok := se.X.(*ast.Ident)
-			if !ok || id.Name != timeName || id.Obj != nil {
-				return true
-			}
-			switch se.Sel.Name {
-			case "Now", "Since", "Until", "Local":
-				replaced[se] = true
-			}
-			return true
-		})
-		_ = rewrite
-		if len(replaced) == 0 {
-			return nil
+		d := filepath.Dir(p)
+		if byDir[d] == nil {
+			dirs = append(dirs, d)
 		}
-		// second walk with parent links to turn time.Local into a call
-		var walk func(parent ast.Node, field *ast.Expr)
-		fix := func(e *ast.Expr) {
-			se, ok := (*e).(*ast.SelectorExpr)
-			if !ok || !replaced[se] {
-				return
-			}
-			pos := fset.Position(se.Pos())
-			sites = append(sites, site{Pkg: filepath.ToSlash(filepath.Dir(rel)), File: filepath.Base(rel), Line: pos.Line, What: "time." + se.Sel.Name})
-			delete(replaced, se)
-			se.X = ast.NewIdent("vclock")
-			n++
-			if se.Sel.Name == "Local" {
-				*e = &ast.CallExpr{Fun: se}
-			}
-		}
-		_ = walk
-		rewriteExprs(f, fix)
-		if n == 0 {
-			return nil
-		}
-		addImport(f, modPath+"/vclock", "vclock")
-		var buf bytes.Buffer
-		if err := format.Node(&buf, fset, f); err != nil {
-			return fmt.Errorf("%s: %v", p, err)
-		}
-		dst := filepath.Join(out, "src", rel)
-		if err := os.MkdirAll(filepath.Dir(dst), 0o755); err != nil {
-			return err
-		}
-		// an import of "time" that is no longer used would not compile: keep it alive
-		b := buf.Bytes()
-		b = append(b, []byte("\nvar _ = "+timeName+".Second\n")...)
-		if err := os.WriteFile(dst, b, 0o644); err != nil {
-			return err
-		}
-		overlay[p] = dst
+		byDir[d] = append(byDir[d], &parsed{path: p, rel: rel, f: f})
 		return nil
 	})
 	if err != nil {
 		return err
 	}
-	dst := filepath.Join(out, "src", "vclock", "vclock.go")
-	if err := os.MkdirAll(filepath.Dir(dst), 0o755); err != nil {
-		return err
+	sort.Strings(dirs)
+	// map iteration order first (it needs the types of the unmodified syntax trees)
+	orderSites, orderNote := mapOrderSeam(repo, fset, dirs, byDir)
+	for _, d := range dirs {
+		for _, pf := range byDir[d] {
+			sites = append(sites, clockSeam(fset, pf)...)
+			if !pf.changed {
+				continue
+			}
+			var buf bytes.Buffer
+			if err := format.Node(&buf, fset, pf.f); err != nil {
+				return fmt.Errorf("%s: %v", pf.path, err)
+			}
+			dst := filepath.Join(out, "src", pf.rel)
+			if err := os.MkdirAll(filepath.Dir(dst), 0o755); err != nil {
+				return err
+			}
+			b := buf.Bytes()
+			for _, k := range pf.keep {
+				// an import that is no longer used would not compile: keep it alive
+				b = append(b, []byte("\nvar _ = "+k+"\n")...)
+			}
+			if err := os.WriteFile(dst, b, 0o644); err != nil {
+				return err
+			}
+			overlay[pf.path] = dst
+		}
 	}
-	if err := os.WriteFile(dst, []byte(vclockSrc), 0o644); err != nil {
-		return err
+	for name, src := range map[string]string{"vclock": vclockSrc, "vorder": vorderSrc} {
+		dst := filepath.Join(out, "src", name, name+".go")
+		if err := os.MkdirAll(filepath.Dir(dst), 0o755); err != nil {
+			return err
+		}
+		if err := os.WriteFile(dst, []byte(src), 0o644); err != nil {
+			return err
+		}
+		overlay[filepath.Join(repo, name, name+".go")] = dst
 	}
-	overlay[filepath.Join(repo, "vclock", "vclock.go")] = dst
 	ob, _ := json.MarshalIndent(map[string]any{"Replace": overlay}, "", " ")
 	if err := os.WriteFile(filepath.Join(out, "overlay.json"), ob, 0o644); err != nil {
 		return err
 	}
-	sort.Slice(sites, func(i, j int) bool {
-		return sites[i].Pkg+sites[i].File+strconv.Itoa(sites[i].Line) < sites[j].Pkg+sites[j].File+strconv.Itoa(sites[j].Line)
-	})
-	sb, _ := json.MarshalIndent(map[string]any{"clock_sites": sites}, "", " ")
+	less := func(s []site) func(i, j int) bool {
+		return func(i, j int) bool {
+			return s[i].Pkg+s[i].File+fmt.Sprintf("%08d", s[i].Line) < s[j].Pkg+s[j].File+fmt.Sprintf("%08d", s[j].Line)
+		}
+	}
+	sort.Slice(sites, less(sites))
+	sort.Slice(orderSites, less(orderSites))
+	sb, _ := json.MarshalIndent(map[string]any{"clock_sites": sites, "map_range_sites": orderSites, "map_order_seam": orderNote}, "", " ")
 	return os.WriteFile(filepath.Join(out, "clock_sites.json"), sb, 0o644)
+}
+
+// clockSeam rewrites time.Now / Since / Until / Local of one file.
+func clockSeam(fset *token.FileSet, pf *parsed) (sites []site) {
+	f := pf.f
+	timeName := ""
+	for _, is := range f.Imports {
+		if is.Path.Value == `"time"` {
+			timeName = "time"
+			if is.Name != nil {
+				timeName = is.Name.Name
+			}
+		}
+	}
+	if timeName == "" || timeName == "_" || timeName == "." {
+		return nil
+	}
+	replaced := map[*ast.SelectorExpr]bool{}
+	ast.Inspect(f, func(x ast.Node) bool {
+		se, ok := x.(*ast.SelectorExpr)
+		if !ok {
+			return true
+		}
+		id, ok := se.X.(*ast.Ident)
+		if !ok || id.Name != timeName || id.Obj != nil {
+			return true
+		}
+		switch se.Sel.Name {
+		case "Now", "Since", "Until", "Local":
+			replaced[se] = true
+		}
+		return true
+	})
+	if len(replaced) == 0 {
+		return nil
+	}
+	n := 0
+	// time.Local (a variable) becomes the call vclock.Local()
+	fix := func(e *ast.Expr) {
+		se, ok := (*e).(*ast.SelectorExpr)
+		if !ok || !replaced[se] {
+			return
+		}
+		pos := fset.Position(se.Pos())
+		sites = append(sites, site{Pkg: filepath.ToSlash(filepath.Dir(pf.rel)), File: filepath.Base(pf.rel), Line: pos.Line, What: "time." + se.Sel.Name})
+		delete(replaced, se)
+		se.X = ast.NewIdent("vclock")
+		n++
+		if se.Sel.Name == "Local" {
+			*e = &ast.CallExpr{Fun: se}
+		}
+	}
+	rewriteExprs(f, fix)
+	if n == 0 {
+		return nil
+	}
+	addImport(f, modPath+"/vclock", "vclock")
+	pf.changed = true
+	pf.keep = append(pf.keep, timeName+".Second")
+	return sites
 }
 
 // rewriteExprs calls fix on every expression slot of the file (so that an expression can be replaced in place).
